@@ -467,6 +467,15 @@ def verify_lemma(make_ctx, reg, name, timeout_ms=10000):
             fr = X.Frame(env, None, None, module=None)
             for use in lem["use"]:
                 reg.use_lemma(it, use, fr)
+            for mtxt in lem.get("mention", []):
+                mf = X.Frame(dict(env), None, None, module=None)
+                mf.spec = X.SpecEnv()
+                mf.spec.old = None
+                run.spec_depth += 1
+                try:
+                    it.ev(reg.parse(mtxt), mf)
+                finally:
+                    run.spec_depth -= 1
             req = AND(*[zbool(reg.eval_clause(it, r, fr, old=None)) for r in lem["requires"]])
             if case == "direct":
                 run.assume(zbool(req))
